@@ -848,4 +848,25 @@ def convertKey (P : Prims) (C : ConvPrims) (k : Key) (to : Alg) : Res Key :=
   else if k.alg = .ed25519 ∧ to = .x25519 then toX25519 P C k
   else .err .unsupported                                     -- "Unsupported key conversion operation"
 
+/-! ## the concrete key types' own `from_jwk`, and the length accessors -/
+
+/-- `<K as FromJwk>::from_jwk(text)` of a CONCRETE key type `K` (the 8 asymmetric types implement it; for the symmetric algorithms
+    `fromJwkParts` answers `Unsupported`, which stands for "no such impl"): `JwkParts::try_from_str`, then `K::from_jwk_parts` —
+    no `(kty, crv)` dispatch in front, so the type's own "Unsupported key type / algorithm" arms decide -/
+def fromJwkTyped (cfg : Cfg) (P : Prims) (alg : Alg) (text : Bytes) : Res Key :=
+  match parseJwk cfg text with
+  | some j => fromJwkParts cfg P alg j
+  | none => .err .invalid
+
+/-- what a concrete type accepts as `kty` -/
+def Alg.ktyOk (alg : Alg) (kty : Bytes) : Bool :=
+  if alg.isEc then kty = sb "EC" else if alg.isBls then (kty = sb "OKP" || kty = sb "EC") else kty = sb "OKP"
+
+/-- `ToPublicBytes::public_bytes_length` (`PublicKeySize::USIZE`; `key_to_public` refuses symmetric keys) -/
+def publicBytesLen (k : Key) : Res Nat :=
+  if k.alg.isSymmetric then .err .unsupported else .ok k.alg.pubBytesLen
+
+/-- `ToSecretBytes::secret_bytes_length` (`KeySize::USIZE`, whether or not the key holds a secret) -/
+def secretBytesLen (k : Key) : Res Nat := .ok k.alg.secretLen
+
 end Askar.Jwk
